@@ -12,7 +12,7 @@
    are arbitrary action lists, arbitrarily many), every engine output sequence and every number of steps. *)
 From Coq Require Import List Arith Bool NArith.
 Import ListNotations.
-From YV Require Import model.Sched model.SchedObs proofs.SchedProofs.
+From YV Require Import model.Sched model.SchedObs proofs.SchedProofs proofs.SchedInvProofs.
 
 (* The switch trace (resumed fibers, injection points, picks, draws, CAS results, wait results, recorded pairs) is
    equivariant under ANY injective renaming of the fiber ids, for any state whatsoever. *)
@@ -61,6 +61,36 @@ Print Assumptions c17_draws_only_from_count.
 Theorem c17_time_monotone : forall cf draws alloc fuel s, (now s <= now (steps cf draws alloc fuel s))%N.
 Proof. exact time_monotone. Qed.
 Print Assumptions c17_time_monotone.
+
+(* Sanity: no fiber is in two queues.  In every state of every run of every program (started by creating the driver
+   d, whose id is not one the allocator will hand out), the scheduler node of a fiber -- current fiber, run queue,
+   sleep buckets -- is linked at most once, and so is its wait-queue node (FiberQueues of mutexes, condition
+   variables, bare queues).  [Only a fiber inside a timed wait is linked in both kinds: clause iC of the invariant.] *)
+Theorem c17_no_fiber_in_two_queues : forall cf draws alloc, (forall a b, alloc a = alloc b -> a = b) ->
+  forall t d p rc0 inj0 n0, (forall k, n0 <= k -> alloc k <> d) ->
+  forall fuel, NoDup (snodes (steps cf draws alloc fuel (init t d p rc0 inj0 n0))) /\
+               NoDup (wnodes (steps cf draws alloc fuel (init t d p rc0 inj0 n0))).
+Proof. exact two_queues_from_init. Qed.
+Print Assumptions c17_no_fiber_in_two_queues.
+
+Theorem c17_no_fiber_in_two_queues_restored : forall cf draws alloc, (forall a b, alloc a = alloc b -> a = b) ->
+  forall t d p rc0 inj0 n0, (forall k, n0 <= k -> alloc k <> d) ->
+  forall fuel, NoDup (snodes (steps cf draws alloc fuel (quiescent t d p rc0 inj0 n0))) /\
+               NoDup (wnodes (steps cf draws alloc fuel (quiescent t d p rc0 inj0 n0))).
+Proof. exact two_queues_from_quiescent. Qed.
+Print Assumptions c17_no_fiber_in_two_queues_restored.
+
+(* Sanity: a sleeper never resumes before its deadline.  Whenever the scheduler makes f the current fiber and f was in
+   a plain sleep (yaclib_std::this_thread::sleep_for) with absolute deadline ns, the clock shows at least ns. *)
+Theorem c17_sleeper_not_early : forall cf draws alloc, (forall a b, alloc a = alloc b -> a = b) ->
+  forall t d p rc0 inj0 n0, (forall k, n0 <= k -> alloc k <> d) ->
+  forall fuel s' o f ns,
+  step cf draws alloc (steps cf draws alloc fuel (init t d p rc0 inj0 n0)) = Some (s', o) ->
+  cur (steps cf draws alloc fuel (init t d p rc0 inj0 n0)) = None -> cur s' = Some f ->
+  pendO (steps cf draws alloc fuel (init t d p rc0 inj0 n0)) f = Some (PSleep ns) ->
+  (ns <= now s')%N.
+Proof. exact sleeper_from_init. Qed.
+Print Assumptions c17_sleeper_not_early.
 
 (* ------------------------------------------------------------------ non-vacuity: traces of the real library *)
 Local Open Scope N_scope.
@@ -133,3 +163,21 @@ Example c17_poll_index_wrap :
   poll_index {| freq := 3; casf := 2; pick := 10; tick := 10; slpt := 100 |} 3 12 = 0%nat /\
   poll_index {| freq := 3; casf := 2; pick := 10; tick := 10; slpt := 100 |} 3 4 = 1%nat.
 Proof. vm_compute. repeat split. Qed.
+
+(* The premises of c17_sleeper_not_early occur: in the real trace above, step 30 resumes fiber 5 (f2, after
+   sleep_for(10) started at 40: deadline 50) at time 70, and step 81 resumes fiber 8 (f5, deadline 185) at 200. *)
+Example c17_sleeper_resumed :
+  let s := steps ex_cfg (draws_of ex_draws) (fun k => (3 + k)%nat) 30 (start 0 0 2 ex_prog 0 0) in
+  cur s = None /\ pendO s 5%nat = Some (PSleep 50) /\
+  option_map (fun r => (cur (fst r), now (fst r))) (step ex_cfg (draws_of ex_draws) (fun k => (3 + k)%nat) s) =
+    Some (Some 5%nat, 70).
+Proof. vm_compute. repeat split. Qed.
+
+(* A state of that run in which fibers are spread over the run queue, a sleep bucket and two wait queues (one fiber,
+   inside condition_variable::wait_for, is in a bucket AND in the condition variable's queue). *)
+Example c17_queues_populated :
+  let s := steps ex_cfg (draws_of ex_draws) (fun k => (3 + k)%nat) 28 (start 0 0 2 ex_prog 0 0) in
+  (length (snodes s) >= 3)%nat /\ (length (wnodes s) >= 1)%nat /\
+  existsb (fun f => mem f (snodes s)) (wnodes s) = true.
+Proof. vm_compute. repeat split; auto. Qed.
+
